@@ -3,7 +3,8 @@
 
 use super::{header_carriers, Ex, Scale};
 use crate::gen::{self, b, i, map, t, u};
-use crate::mc::{par_partitions, Report};
+use crate::mc::{par_partitions, Report, Viol};
+use crate::subject::{self, Outcome};
 use crate::oracle::{Checks, Entry};
 use crate::refcbor::{encodings, hex, DevOpts, Enc, Item};
 use crate::refcose::Ty;
@@ -44,6 +45,53 @@ fn label_encodings(label: &Item) -> Vec<Enc> {
 }
 
 pub fn explore(ex: &Ex) {
+    // a repeated label however deep the header map sits: every word over the four header <->
+    // counter-signature edges pumped to depth 1..40 around a map with a repeated label, through
+    // every carrier - must be rejected (whatever nesting limit the decoder has, and at that limit)
+    {
+        let mut names = crate::spaces::c01::family_names(false);
+        names.retain(|n| n.starts_with("depth:"));
+        let nmax = ex.pick(20usize, 40, 64);
+        ex.bound("c12.deep", "n_max", json!(nmax));
+        par_partitions(ex.rep, names, |name, l| {
+            for core in [&[0xa2u8, 0x18, 0x63, 0x00, 0x18, 0x63, 0x01][..], &[0xa3, 0x04, 0x41, 0x01, 0x01, 0x26, 0x04, 0x41, 0x02], &[0xbf, 0x61, 0x61, 0x00, 0x61, 0x61, 0x00, 0xff]] {
+                for n in 1..=nmax {
+                    if let Some((eps, bytes)) = crate::spaces::c01::family_around(name, n, core) {
+                        for (ty, entry) in eps {
+                            let case = format!("{} {} {}", crate::oracle::ty_name(ty), entry.name(), hex(&bytes));
+                            if let Ok(only) = std::env::var("VERIF_ONLY_CASE") {
+                                if only != case {
+                                    continue;
+                                }
+                            }
+                            l.state(n as u64);
+                            l.evaluations += 1;
+                            l.impl_checked += 1;
+                            l.nontrivial(&bytes);
+                            let out = match entry {
+                                Entry::Slice => subject::decode(ty, &bytes),
+                                Entry::Tagged => subject::decode_tagged(ty, &bytes),
+                                Entry::Bstr => match subject::parse_value(&bytes) {
+                                    Outcome::Ok((v, _)) => subject::decode_protected_bstr(v),
+                                    _ => continue,
+                                },
+                            };
+                            if !out.is_err() {
+                                l.viol(Viol {
+                                    key: format!("C12:accepted-duplicate-at-depth:{}", crate::oracle::ty_name(ty)),
+                                    space: "c12.deep".into(),
+                                    case,
+                                    direct: None,
+                                    expected: format!("Err (a header map {} levels down repeats a label)", n),
+                                    observed: out.brief(),
+                                });
+                            }
+                        }
+                    }
+                }
+            }
+        });
+    }
     let thorough = ex.scale == Scale::Thorough;
     let mut labels: Vec<Item> = gen::label_ints(thorough).into_iter().map(|v| i(v as i128)).collect();
     labels.extend(gen::label_texts(false).into_iter().filter(|s| s.len() < 300).map(|s| t(&s)));
